@@ -84,16 +84,55 @@ class Result:
         self.notes.extend(other.notes)
 
 
+def _scan_memcheck(task, wdir, res):
+    """valgrind prints '==pid== <error>' blocks on the node's stderr and keeps going; dedupe by first repo frame."""
+    if "memcheck" not in (os.environ.get("VERIF_VNODE") or ""):
+        return
+    seen = set()
+    for root, _dirs, files in os.walk(wdir):
+        for fn_ in files:
+            if not fn_.startswith("stderr-"):
+                continue
+            try:
+                text = open(os.path.join(root, fn_), "rb").read().decode("utf-8", "replace")
+            except OSError:
+                continue
+            blocks = text.split("\n==")
+            i = 0
+            lines = text.splitlines()
+            for li, line in enumerate(lines):
+                m = line.split("== ", 1)
+                if len(m) == 2 and line.startswith("==") and any(k in m[1] for k in ("Invalid read", "Invalid write", "uninitialised", "Invalid free",
+                                                                                      "Mismatched free", "overlap", "Process terminating")):
+                    frames = [l.split("== ", 1)[1].strip() for l in lines[li + 1:li + 14] if l.startswith("==") and ("at 0x" in l or "by 0x" in l)]
+                    repo = next((f for f in frames if "snel_db::" in f), frames[0] if frames else "")
+                    key = (m[1].strip()[:40], repo[:120])
+                    if key in seen:
+                        continue
+                    seen.add(key)
+                    res.violation("sanitizer_report", {"tool": "memcheck", "kind": m[1].strip().split(" of size")[0][:40]},
+                                  f"{task.get('name', '?')}: {m[1].strip()} | {repo[:200]}", {"task": task, "frames": frames[:14]})
+
+
 def _worker_entry(args):
     fn, task, scratch = args
     res = Result()
     wdir = tempfile.mkdtemp(prefix="w-", dir=scratch)
     try:
         fn(task, wdir, res)
+        _scan_memcheck(task, wdir, res)
     except Inconclusive as e:
         res.inconclusive.append(f"{task.get('name', '?')}: {e}")
     except NodeDied as e:
-        res.inconclusive.append(f"{task.get('name', '?')}: unexpected node death {e.code}: {e.stderr_tail[-300:]}")
+        if "AddressSanitizer" in (e.stderr_tail or "") or "LeakSanitizer" in (e.stderr_tail or ""):
+            # sanitizer build (VERIF_VNODE): a report aborts the node; it belongs to the property whose workload produced it
+            tail = e.stderr_tail
+            first = next((l for l in tail.splitlines() if "ERROR: AddressSanitizer" in l or "ERROR: LeakSanitizer" in l), tail[-200:])
+            frame = next((l.strip() for l in tail.splitlines() if "/repo/src/" in l), "")
+            res.violation("sanitizer_report", {"tool": "asan", "kind": first.split("AddressSanitizer:")[-1].strip().split(" ")[0] if "AddressSanitizer:" in first else "report"},
+                          f"{task.get('name', '?')}: {first.strip()[:200]} | first repo frame: {frame[:160]}", {"task": task, "stderr": tail[-3000:]})
+        else:
+            res.inconclusive.append(f"{task.get('name', '?')}: unexpected node death {e.code}: {e.stderr_tail[-300:]}")
     except Exception:
         res.inconclusive.append(f"{task.get('name', '?')}: harness error: {traceback.format_exc()[-1500:]}")
     finally:
@@ -206,3 +245,27 @@ class Run:
         if not os.environ.get("VERIF_KEEP"):
             shutil.rmtree(self.scratch, ignore_errors=True)
         return code
+
+
+def run_under_memcheck(run, fn, tasks, label):
+    """Sanitizer layer: replays `tasks` with every node process under valgrind memcheck (san/vnode_memcheck.sh). Reports that valgrind
+    prints (invalid read / write, use of uninitialised values, bad frees) become `sanitizer_report` violations of the property whose
+    workload produced them (_worker_entry scans the nodes' stderr); the task's own oracle runs as usual."""
+    import shutil as _sh
+    if not _sh.which("valgrind"):
+        run.result.notes.append(f"sanitizer layer ({label}): valgrind not available in this image - not run")
+        run.result.count("memcheck_layer_not_run")
+        return
+    old = os.environ.get("VERIF_VNODE")
+    os.environ["VERIF_VNODE"] = os.path.join(VERIF, "san", "vnode_memcheck.sh")
+    os.environ["VERIF_NODE_START_TIMEOUT"] = "240"
+    os.environ["VERIF_SLOWDOWN"] = "25"
+    try:
+        run.parallel(fn, tasks)
+        run.result.count("memcheck_histories", len(tasks))
+    finally:
+        os.environ.pop("VERIF_SLOWDOWN", None)
+        if old is None:
+            os.environ.pop("VERIF_VNODE", None)
+        else:
+            os.environ["VERIF_VNODE"] = old
